@@ -59,15 +59,17 @@ theorem C15_returns_consumed_of_prov (ti : TyInfo) (funcs : List CP) (cannot0 : 
       exact validate_FR true pre _ hv
   -- what provOKB says, position by position
   have hp : ∀ i, i < pre.length → (pre.get i).pos = i ∧ (pre.get i).mcRet = true ∧
-      ∀ e ∈ (pre.get i).usedByRet, (pre.get i).c.ret.contains e.1 = true → ∀ q ∈ e.2, q < i ∧ (pre.get q).recvTypes.contains e.1 = true := by
+      ∀ e ∈ (pre.get i).usedByRet, (pre.get i).c.ret.contains e.1 = true → e.1 ≠ tUnused →
+        ∀ q ∈ e.2, q < i ∧ (pre.get q).recvTypes.contains e.1 = true := by
     intro i hi
     unfold provOKB at hprov
     rw [List.all_eq_true] at hprov
     have := hprov i (by simpa using hi)
     simp only [Bool.and_eq_true, beq_iff_eq, List.all_eq_true, decide_eq_true_eq, Bool.or_eq_true, Bool.not_eq_true'] at this
-    refine ⟨this.1.1, this.1.2, fun e he hc q hq => ?_⟩
-    rcases this.2 e he with hno | hall
+    refine ⟨this.1.1, this.1.2, fun e he hc hne q hq => ?_⟩
+    rcases this.2 e he with (hno | hun) | hall
     · rw [hc] at hno; cases hno
+    · exact absurd hun hne
     · exact hall q hq
   -- static fields survive validation
   have hstat : ∀ i, (ch.get i).pos = (pre.get i).pos ∧ (ch.get i).mcRet = (pre.get i).mcRet ∧
@@ -104,13 +106,15 @@ theorem C15_returns_consumed_of_prov (ti : TyInfo) (funcs : List CP) (cannot0 : 
     · simp only [hco, Bool.true_or]
     · simp only [hun, Bool.true_or, Bool.or_true]
     · -- q is an included receiver listed before f
+      by_cases hun : t = tUnused
+      · simp [hun]
       cases hlk : f.usedByRet.lookup t with
       | none => simp [hlk] at hq
       | some l =>
         simp only [hlk, Option.getD_some] at hq
         have hmem : (t, l) ∈ (pre.get i).usedByRet := by rw [← hs.2.2.1]; exact lookupL_mem hlk
         have htret : (pre.get i).c.ret.contains t = true := by rw [← hs.2.2.2.2]; simpa using ht
-        have ⟨hqi, hrecv⟩ := hprovi (t, l) hmem htret q hq
+        have ⟨hqi, hrecv⟩ := hprovi (t, l) hmem htret hun q hq
         have hqlen : q < ch.length := by omega
         have hsq := hstat q
         have hqpos : (ch.get q).pos = q := by rw [hsq.1]; exact (hp q (by rw [← hfr.1]; exact hqlen)).1
